@@ -85,7 +85,12 @@ func (nd *KVNode) scanCommand(cmd redcon.Command) (interface{}, error) {
 	if length < count || (count == 0 && length == 0) {
 		nextCursor = []byte("")
 	} else {
+		// the server rebuilds the cursor of the next page as table:cursor, so the
+		// partition's cursor is the key without its table (as advscan returns it)
 		nextCursor = ay[len(ay)-1]
+		if _, rk, err := common.ExtractTable(nextCursor); err == nil {
+			nextCursor = rk
+		}
 	}
 
 	if length > 0 {
